@@ -117,9 +117,14 @@ def mk_step(fname, H, W, sigma):
 OBS6 = [e for e in SIGMA_2C if e[0] in ('Floor', 'Wall', 'Door(OPEN,YELLOW)', 'Door(LOCKED,YELLOW)', 'Key(YELLOW)', 'Box(Floor)')]
 
 
-def mk_observation(fname, H, W, area):
+def mk_observation(fname, H, W, area, pin=None, sigma=None):
+    sigma = OBS6 if sigma is None else sigma
+
     def h(sx):
-        state, world = lazy_state(sx, H, W, OBS6, held_sigma=OBS6)
+        from ..stubs import ORS
+        state, world = lazy_state(sx, H, W, sigma, held_sigma=sigma, orientations=ORS if pin is None else [pin[2]])
+        if pin is not None:
+            sx.assume(sym_and(state.agent.position.y == pin[0], state.agent.position.x == pin[1]))
         pose0 = (state.agent.position.y, state.agent.position.x, state.agent.orientation)
         ob = getattr(OF, fname)(state, area=area, rng=SymRng(sx))
         sx.cover('observation')
@@ -353,6 +358,13 @@ def obligations(tier):
             for area in ([Area((0, 0), (-1, 1))] if fname == 'stochastic_raytracing' else [Area((-1, 0), (-1, 1)), Area((-2, 0), (-1, 1))]):
                 obs.append(Obligation(f'observation-{fname}-{H}x{W}-view{area.height}x{area.width}', mk_observation(fname, H, W, area),
                                       dict(function=fname, H=H, W=W, view=[area.height, area.width])))
+        # a view that coincides with the whole grid for one pose (where a sub-grid could be the grid itself)
+        from gym_gridverse.geometry import Orientation as _O
+        for (H, W, area, pin) in [(1, 3, Area((0, 0), (-1, 1)), None), (2, 3, Area((-1, 0), (-1, 1)), (1, 1, _O.F))] + ([] if q else [(3, 3, Area((-2, 0), (-1, 1)), (2, 1, _O.F))]):
+            if fname == 'stochastic_raytracing' and H > 1:
+                continue
+            obs.append(Obligation(f'observation-{fname}-{H}x{W}-view-as-large-as-the-grid', mk_observation(fname, H, W, area, pin, None if H == 1 else [e for e in OBS6 if e[0] in ('Floor', 'Wall', 'Door(LOCKED,YELLOW)')]),
+                                  dict(function=fname, H=H, W=W, view=[area.height, area.width], pose='any' if pin is None else 'the one where view and grid coincide', alphabet=6 if H == 1 else 3)))
     small = [e for e in sigma if e[0] in ('Floor', 'Wall', 'Exit(NONE)', 'Key(YELLOW)', 'MovingObstacle', 'Door(OPEN,YELLOW)', 'Door(LOCKED,YELLOW)', 'Telepod(YELLOW)', 'Box(Floor)')]
     for (H, W) in ([(1, 2), (2, 2)] if q else shapes(2, 2) + [(3, 3)]):
         for rn, r in LOCAL_REWARDS.items():
@@ -368,4 +380,7 @@ def obligations(tier):
             obs.append(Obligation(f'scanning-reward-{kind}-{H}x{W}', mk_scanning_reward(kind, H, W), dict(component=kind, H=H, W=W)))
     obs.append(Obligation('history-dijkstra', h_history_dijkstra))
     obs.append(Obligation('history-rays', h_history_rays))
+    from .c12 import h_shortest_path_other_shapes
+    obs.append(Obligation('history-shortest-path-after-a-question-on-another-shape', h_shortest_path_other_shapes,
+                          dict(shapes='2x6, 3x4, 4x3, 6x2 with equal row-major walkability')))
     return obs
